@@ -43,7 +43,7 @@ def kname(c):
     return INV[c]
 
 
-PFX = {"lsft": "S-", "lctl": "C-", "lalt": "A-", "lmet": "M-", "ralt": "AG-"}
+PFX = {"lsft": "S-", "lctl": "C-", "lalt": "A-", "lmet": "M-", "ralt": "AG-", "rsft": "RS-", "rctl": "RC-", "rmet": "RM-"}
 
 
 def item_text(it):
@@ -334,7 +334,7 @@ def replay_table(r, path, wd):
 
 
 # ------------------------------------------------------------------ part 2: run time
-VK_OUT = ["x", "y", "z"]
+VK_OUT = ["x", "y", "z", "1", "2", "3", "4", "5", "6", "7"]
 
 
 def seq_instance(name, defs, mode, T=3, always=False, leader=True, keys=("a", "b"), modcancel=True, qmax=2, bound=None):
@@ -358,7 +358,7 @@ def seq_instance(name, defs, mode, T=3, always=False, leader=True, keys=("a", "b
     maxlen = max(sum(1 if it["t"] == "k" else len(it["ks"]) + len(it.get("mods", [])) for it in d) for d in defs)
     b = bound if bound is not None else maxlen + 1
     inst = {"name": "c12_" + name, "kbd": kbd, "keys": [C(k) for k in ks], "qmax": qmax,
-            "monitor": {"module": "P_C12", "params": params},
+            "monitor": {"module": "P_C12", "params": dict(params, s2=False)},
             "constraint": "SeqBound", "extra_defs": "SeqBound == Len(K.sq.raw) <= %d" % b}
     return inst, params, kbd
 
@@ -369,23 +369,26 @@ A, B, Cc = "a", "b", "c"
 def family(tier):
     ab = [K("a"), K("b")]
     oab = [O(["a", "b"])]
+    sa = [M(["lsft"], ["a"])]
     fam = [
         ("hs_ab_oab", [ab, oab], "hidden-suppressed", {}),
-        ("hd_ab_ba", [ab, [K("b"), K("a")]], "hidden-delay-type", {}),
-        ("vb_ab_oab", [ab, oab], "visible-backspaced", {}),
+        ("hd_ab_ba", [ab, [K("b"), K("a")]], "hidden-delay-type", {"T": 2}),
+        ("vb_ab_oab", [ab, oab], "visible-backspaced", {"T": 2}),
         ("hd_on_ab_bba", [ab, [K("b"), K("b"), K("a")]], "hidden-delay-type", {"always": True, "leader": False}),
-        ("vb_sa", [[M(["lsft"], ["a"])], [K("a"), K("lsft")]], "visible-backspaced", {"keys": ("lsft", "a")}),
+        ("vb_sa", [sa, [K("a"), K("lsft")]], "visible-backspaced", {"keys": ("lsft", "a"), "T": 2}),
+        ("hd_sa", [sa, [K("a"), K("a")]], "hidden-delay-type", {"keys": ("lsft", "a"), "T": 2}),
     ]
     if tier != "quick":
         fam += [
-            ("hs_oab_c", [[O(["a", "b"]), K("c")], [K("c"), K("a")]], "hidden-suppressed", {"keys": ("a", "b", "c")}),
+            ("hs_oab_c", [[O(["a", "b"]), K("c")], [K("c"), K("a")]], "hidden-suppressed", {"keys": ("a", "b", "c"), "T": 2}),
             ("vb_on_ab", [ab, [K("b"), K("b")]], "visible-backspaced", {"always": True, "leader": False}),
-            ("hs_on_ab", [ab, [K("b"), K("b")]], "hidden-suppressed", {"always": True, "leader": False}),
             ("hd_sab", [[M(["lsft"], ["a", "b"])], [K("lsft"), K("b")]], "hidden-delay-type",
-             {"keys": ("lsft", "a", "b"), "modcancel": False}),
+             {"keys": ("lsft", "a", "b"), "modcancel": False, "T": 2}),
             ("hs_T1", [ab], "hidden-suppressed", {"T": 1}),
-            ("hd_T2", [ab, oab], "hidden-delay-type", {"T": 2}),
-            ("vb_abc", [[K("a"), K("b"), K("c")], [K("b"), K("c")]], "visible-backspaced", {"keys": ("a", "b", "c")}),
+            ("hd_T3", [ab, oab], "hidden-delay-type", {"T": 3}),
+            ("vb_T3", [ab, [K("b"), K("a")]], "visible-backspaced", {"T": 3}),
+            ("vb_abc", [[K("a"), K("b"), K("c")], [K("b"), K("c")]], "visible-backspaced", {"keys": ("a", "b", "c"), "T": 2}),
+            ("hs_oabc", [[O(["a", "b", "c"])], [K("a"), K("b")]], "hidden-suppressed", {"keys": ("a", "b", "c"), "T": 2}),
         ]
     out = []
     for name, defs, mode, kw in fam:
@@ -403,8 +406,15 @@ def run_time(res, tier, rng, wd):
         if len(res.samples) < 4:
             res.samples.append({"instance": name, "kbd": kbd, "states": r["states"], "edges": r.get("edges")})
         ws = flow.witness_scripts(r["monerr_file"], 40) + flow.witness_scripts(r["panic_file"], 10)
-        scripts = [flow.hist_to_script(w["h"], 12) for w in ws] + \
-                  [flow.hist_to_script(d["h"], 12) for d in r.get("drift_samples", [])]
+        scripts = [flow.hist_to_script(w["h"], 12) for w in ws]
+        # where the code leaves the model (drift) the behaviours nearby are recorded and judged by the monitor:
+        # the drifting history itself and its continuations by one more tap of every key
+        for d in r.get("drift_samples", []):
+            scripts.append(flow.hist_to_script(d["h"], 12))
+            for k in inst["keys"]:
+                down = [st[1] for st in d["h"] if st[0] == "d" and d["h"].count(["d", st[1]]) > d["h"].count(["u", st[1]])]
+                pre = [["u", k], ["t", 1]] if k in down else []
+                scripts.append(flow.hist_to_script(d["h"]) + pre + [["d", k], ["t", 1], ["u", k], ["t", params["T"] + 8]])
         if scripts:
             witness_jobs.append({"cfg": kbd, "params": params, "tag": "w:" + name, "scripts": scripts})
         T = params["T"]
@@ -428,16 +438,198 @@ def run_time(res, tier, rng, wd):
             res.samples.append({"random_history": jobs[0]["scripts"][0][:30], "cfg": jobs[0]["cfg"]})
 
 
+# ------------------------------------------------------------------ part 2b: TLC-enumerated typing histories
+MC_H = r"""---- MODULE %(mod)s ----
+EXTENDS Naturals, Sequences, FiniteSets, TLC, Json
+E == INSTANCE SeqEnv
+Tables == %(tables)s
+VARIABLES t, ph
+Check(j) == PrintT(<<"HIST", ToJson([tb |-> j, sc |-> E!SeScripts(Tables[j].tb, Tables[j].lead, Tables[j].f,
+                                                                Tables[j].waits, Tables[j].tail)])>>)
+Init == t = 0 /\ ph = 0
+Next == \/ ph = 0 /\ t = 0 /\ \E j \in DOMAIN Tables : t' = j /\ ph' = 0
+        \/ ph = 0 /\ t > 0 /\ Check(t) /\ ph' = 1 /\ t' = t
+====
+"""
+
+MODES = ["hidden-suppressed", "hidden-delay-type", "visible-backspaced"]
+# the table of the repository's overlap tests (src/tests/sim_tests/seq_sim_tests.rs OVERLAP_CFG), with and without
+# the definition its comment calls a "KNOWN BUGGY CASE"
+REPO_OVERLAP = [[O(["a", "b"])], [K("a"), K("b")], [O(["c", "d"]), K("e")], [K("c"), K("d"), K("e")],
+                [O(["c", "d"]), O(["f", "g"])], [O(["c", "d"]), K("f"), K("g")], [K("c"), K("d"), O(["f", "g"])]]
+REPO_S8 = [K("c"), K("d"), K("f"), K("g")]
+
+
+def table_codes(defs):
+    cs = []
+    for d in defs:
+        for it in d:
+            for c in ([it["c"]] if it["t"] == "k" else it.get("mods", []) + it["ks"]):
+                if c not in cs:
+                    cs.append(c)
+    return cs
+
+
+def history_tables(tier, rng, wd):
+    """Tables for the typing histories: fixed ones + a seeded sample of the part-1 universe, filtered by the real parser."""
+    items = alphabet(tier) + [K("c")]
+    fixed = [REPO_OVERLAP, REPO_OVERLAP + [REPO_S8],
+             [[K("a"), K("b")], [O(["a", "b"]), K("c")]],
+             [[O(["a", "b"])], [K("a"), K("b"), K("c")]],
+             [[M(["lsft"], ["a", "b"])], [M(["lsft"], ["a"]), K("b")]],
+             [[K("a"), K("b"), K("c")], [K("b"), K("d")]],
+             [[K("lsft"), K("a"), K("b")], [M(["lsft"], ["c", "d"])]],
+             # right-hand modifiers named in a definition
+             [[M(["rsft"], ["a"])], [K("b"), K("a")]],
+             [[K("rctl"), K("a")], [M(["rmet"], ["b"])]]]
+    n = 30 if tier == "quick" else 1200
+    cand = []
+    for _ in range(3 * n):
+        nd = rng.choice([1, 2, 2, 3])
+        cand.append([[rng.choice(items) for _ in range(rng.choice([1, 2, 2, 3]))] for _ in range(nd)])
+    real = real_tables(wd, "c12_hist_tabs", [], [{"cfg": table_cfg(t)} for t in cand])
+    acc = [t for t, r in zip(cand, real) if r["ok"]][:n]
+    return fixed + acc
+
+
+def typing_histories(res, tier, rng, wd):
+    T = 4
+    tabs = history_tables(tier, rng, wd)
+    ent, metas = [], []
+    for i, t in enumerate(tabs):
+        mode = MODES[i % 3] if i >= 2 else "visible-backspaced"      # the repository tests use visible-backspaced
+        # sequence-always-on feeds the virtual key's own output back into the mode, so with hidden-suppressed the
+        # observation channel (the output key) is itself suppressed: always-on only with the other two modes
+        always = i >= 9 and i % 4 == 3 and mode != "hidden-suppressed"
+        codes = table_codes(t)
+        names = [kname(c) for c in codes] + ["q"]
+        inst, params, kbd = seq_instance("h%d" % i, t, mode, T=T, always=always, leader=not always, keys=tuple(names))
+        lead = [] if always else [["d", C("l")], ["t", 1], ["u", C("l")], ["t", 1]]
+        ent.append({"tb": t, "lead": lead, "f": C("q"), "waits": {T - 3, T - 2, T - 1}, "tail": T + 6})
+        metas.append((kbd, params, t, mode, always))
+    mod = "MC_C12H_%s" % tier
+    with open(os.path.join(wd, mod + ".tla"), "w") as f:
+        f.write(MC_H % dict(mod=mod, tables=tla_val(ent)))
+    with open(os.path.join(wd, mod + ".cfg"), "w") as f:
+        f.write(CFG_T)
+    r = run_tlc(wd, mod, workers=8, timeout=1700, heap="6g")
+    tlc_ok(r, mod)
+    hf = os.path.join(wd, mod + ".hist.ndjson")
+    n = extract_prints(r["out"], "HIST", hf)
+    os.remove(r["out"])
+    if n != len(tabs):
+        raise ToolError("%s: TLC exported histories for %d of %d tables" % (mod, n, len(tabs)))
+    res.states += r["distinct"] or 0
+    res.transitions += r["generated"] or 0
+    jobs, nscripts = [], 0
+    for line in open(hf):
+        d = json.loads(line)
+        kbd, params, t, mode, always = metas[d["tb"] - 1]
+        scripts = sorted(d["sc"], key=lambda s: (len(s), json.dumps(s)))
+        nscripts += len(scripts)
+        jobs.append({"cfg": kbd, "params": params, "tag": "h%d" % d["tb"], "scripts": scripts,
+                     "table": " ".join(def_text(x) for x in t),
+                     "rightmods": bool(set(table_codes(t)) & {C("rsft"), C("rctl"), C("rmet")})})
+    log("[c12] typing histories: %d tables, %d histories enumerated by TLC in %.0fs" % (len(tabs), nscripts, r["wall_s"]))
+    jobs = shard_local_index(jobs)
+    errs = par_validate(res, "P_C12", jobs, wd, "c12_hist", 6 if tier == "quick" else 10)
+    bytab = {}
+    for e in sorted(errs, key=lambda e: len(script_of(jobs, e["job"], 0)[1])):
+        j, s = script_of(jobs, e["job"], 0)
+        k = (j["table"], e["err"])
+        bytab[k] = bytab.get(k, 0) + 1
+        if bytab[k] > 1 or len(res.violations) >= 15:
+            continue
+        tag = " [the definition names a right-hand modifier: rsft / rctl / rmet]" if j["rightmods"] else ""
+        flow.classify(res, PID, e["err"], e["err"] + tag + " table=" + j["table"] + " mode=" + j["params"]["mode"] + " cfg=" + j["cfg"],
+                      {"property": PID, "cfg": j["cfg"], "params": j["params"], "script": s, "err": e["err"],
+                       "monitor": "P_C12"}, "hist_%d" % len(res.violations))
+    res.extra["typing_histories"] = {"tables": len(tabs), "histories": nscripts, "rejected": len(errs),
+                                     "rejected_by_table_and_rule": [{"table": k[0], "err": k[1], "n": v} for k, v in
+                                                                    sorted(bytab.items())[:30]]}
+    res.samples.append({"typing_history": jobs[0]["scripts"][0][:24], "table": jobs[0]["table"]})
+
+
+def par_validate(res, monitor, jobs, wd, name, nsplit):
+    """record_and_validate over nsplit parallel TLC runs (each with its own work directory)."""
+    parts = [p for p in (jobs[i::nsplit] for i in range(nsplit)) if p]
+    errs_all, lock, exc = [], threading.Lock(), []
+
+    def work(i, part):
+        try:
+            sub = flow.Result(res.pid, res.tier, res.seed)
+            w = os.path.join(wd, "%s_p%d" % (name, i))
+            os.makedirs(w, exist_ok=True)
+            errs, _ = record_and_validate(sub, monitor, part, w, name)
+            with lock:
+                res.traces_validated += sub.traces_validated
+                res.trace_lines += sub.trace_lines
+                errs_all.extend(errs)
+        except Exception as e:     # re-raised in the caller
+            exc.append(e)
+    th = [threading.Thread(target=work, args=(i, p)) for i, p in enumerate(parts)]
+    for t in th:
+        t.start()
+    for t in th:
+        t.join()
+    if exc:
+        raise exc[0]
+    return errs_all
+
+
 def run(tier, seed):
     res = flow.Result(PID, tier, seed)
     rng = random.Random(seed)
     wd = workdir("c12")
     build_harness()
+    cfgdesc.keytable()
     only = os.environ.get("C12_ONLY", "")
-    stats, levels = ({}, [])
+    box = {}
+
+    def p1():
+        try:
+            sub = flow.Result(PID, tier, seed)
+            wd1 = os.path.join(wd, "part1")
+            os.makedirs(wd1, exist_ok=True)
+            box["r"] = (sub,) + part1(sub, tier, random.Random(seed + 1), wd1)
+        except Exception as e:      # re-raised below
+            box["e"] = e
+    th = None
     if only != "2":
-        stats, levels = part1(res, tier, rng, wd)
-        log("[c12] part 1: %s" % json.dumps(stats))
-    if only != "1":
+        th = threading.Thread(target=p1)
+        th.start()
+    if only not in ("1", "2"):
+        typing_histories(res, tier, rng, wd)
+    if only not in ("1", "3"):
         run_time(res, tier, rng, wd)
-    return flow.finish(res, "model_checking", "wip", assumptions=[], extra_cov={"part1": stats, "part1_levels": levels})
+    stats, levels = {}, []
+    if th:
+        th.join()
+        if "e" in box:
+            raise box["e"]
+        sub, stats, levels = box["r"]
+        res.states += sub.states
+        res.transitions += sub.transitions
+        res.traces_validated += sub.traces_validated
+        res.drift += sub.drift
+        res.notes += sub.notes
+        res.samples += sub.samples
+        res.violations += sub.violations
+        res.known += sub.known
+        log("[c12] part 1: %s" % json.dumps(stats))
+    return flow.finish(
+        res, "model_checking",
+        "Part 1: TLC enumerates defseq tables (see part1_levels), decides StAccepts (prefix-freedom over every permitted "
+        "ordering + arity) and checks the modelled insertion procedure against it; every table is parsed by the real parser "
+        "(accept/reject and trie contents compared); disagreements and a sample are judged by TLC (SeqTab!StJudge).  "
+        "Part 2: TLC explores L1 (Kanata.tla + SeqMode.tla, constants from the parser dump incl. the trie) || P_C12 for every "
+        "physically consistent history over the leader and the sequence keys (<= 2 pending inputs, every gap, typed keys "
+        "bounded) per instance (three input modes, always-on, O-(..) and S-(..) definitions, T in 1..3); every model transition "
+        "is replayed on the real code incl. the SequenceState projection; model-level counterexamples and random histories "
+        "(gaps around T) are recorded from the code and validated by TLC against P_C12.",
+        assumptions=["deterministic stepper (one queued input processed per tick, in arrival order)",
+                     "sequence keys are plain keys mapped to themselves; each virtual key outputs one distinct otherwise-unused key",
+                     "P_C12 is sharp from a clean point (idle, nothing held) while what was typed is a defined sequence, a beginning "
+                     "of one, or cannot belong to any; backtracking cases the documentation does not pin down are soft (S2 only)",
+                     "sequence-always-on is undocumented: judged with the same rules (the mode is entered by the first key)"],
+        extra_cov={"part1": stats, "part1_levels": levels, "exhaustive": True})
